@@ -62,6 +62,8 @@ func c06Ops() []c06Op {
 		c06Op{"FromFormat(non-ASCII, comma)", func(m *mail.Msg) error { return m.FromFormat("Ünï, Name", "a2@x.example") }, set("From", na{"Ünï, Name", "a2@x.example"})},
 		c06Op{"From(invalid)", func(m *mail.Msg) error { return m.From(c06Bad) }, resync},
 		c06Op{"EnvelopeFrom", func(m *mail.Msg) error { return m.EnvelopeFrom("bounce@env.example") }, set("EnvelopeFrom", na{"", "bounce@env.example"})},
+		c06Op{"EnvelopeFrom(VERP with %)", func(m *mail.Msg) error { return m.EnvelopeFrom("bounces+alice%25x=example.org%s@lists.example") }, set("EnvelopeFrom", na{"", "bounces+alice%25x=example.org%s@lists.example"})},
+		c06Op{"From(plus, percent)", func(m *mail.Msg) error { return m.From("o'brien+tag%d@x.example") }, set("From", na{"", "o'brien+tag%d@x.example"})},
 		c06Op{"ReplyTo(quoted name)", func(m *mail.Msg) error { return m.ReplyTo(c06A1.str()) }, set("Reply-To", c06A1)},
 		c06Op{"ReplyToFormat(non-ASCII)", func(m *mail.Msg) error { return m.ReplyToFormat("Jürgen Müller", "a2@x.example") }, set("Reply-To", c06A2)},
 	)
@@ -88,6 +90,7 @@ func c06Ops() []c06Op {
 			c06Op{h.name + "(own, quoted)", func(m *mail.Msg) error { return h.set(m, own.str(), c06A1.str()) }, set(h.name, own, c06A1)},
 			c06Op{h.name + "(plain, invalid)", func(m *mail.Msg) error { return h.set(m, c06A0.str(), c06Bad) }, resync},
 			c06Op{"Add" + h.name + "(non-ASCII)", func(m *mail.Msg) error { return h.add(m, c06A2.str()) }, appendTo(h.name, c06A2)},
+			c06Op{"Add" + h.name + "(percent, plus)", func(m *mail.Msg) error { return h.add(m, "user%25+x%v@x.example") }, appendTo(h.name, na{"", "user%25+x%v@x.example"})},
 			c06Op{"Add" + h.name + "(duplicate plain)", func(m *mail.Msg) error { return h.add(m, c06A0.str()) }, appendTo(h.name, c06A0)},
 			c06Op{"Add" + h.name + "(invalid)", func(m *mail.Msg) error { return h.add(m, c06Bad) }, resync},
 			c06Op{"Add" + h.name + "Format(comma name)", func(m *mail.Msg) error { return h.addFmt(m, "Roe, Jane", "jane@x.example") }, appendTo(h.name, na{"Roe, Jane", "jane@x.example"})},
